@@ -67,6 +67,15 @@ def check(ctx):
     dbs = [pseudo(n.targets[0]) for n in own_nodes(srt0.node) if isinstance(n, ast.Assign) and isinstance(n.value, ast.Call)
            and res.external_name(n.value) in ('kvfile.KVFile', 'kvfile.kvfile.KVFile', 'kvfile.CachedKVFile')]
     if len(dbs) != 1:
+        # the store must belong to ONE sorted resource: reading a KVFile back does not empty it, so a store created by the step (or
+        # by the factory) and shared by the resources still holds the rows of the earlier ones
+        outer_ = [n for f_ in (step, step.parent) if f_ is not None for n in own_nodes(f_.node)
+                  if isinstance(n, ast.Call) and res.external_name(n) in ('kvfile.KVFile', 'kvfile.kvfile.KVFile', 'kvfile.CachedKVFile')]
+        if not dbs and outer_:
+            run.rule('STB', 'STABILITY/NO-LOSS: one store per sorted resource')
+            run.fail('STB', where(repo, outer_[0]), toplevel_qualname(srt0), 'the store is created outside the generator that sorts one resource',
+                     'the key-value store is shared by all resources the step sorts: every resource after the first comes out as the sorted '
+                     'union of its own rows and the rows of the resources before it')
         raise AnalysisError('%s: the KVFile store was not found' % srt0.qualname)
     db = dbs[0]
     ins0 = [c for c in own_nodes(srt0.node) if isinstance(c, ast.Call) and isinstance(c.func, ast.Attribute) and c.func.attr == 'insert'
